@@ -161,6 +161,9 @@ func CryptSampleCenc(sample []byte, key []byte, iv []byte, subSamplePatterns []S
 	if err != nil {
 		return err
 	}
+	// Only the sample is crypted in place: sub-sample patterns that exceed it must not reach
+	// the bytes behind it (the next sample, when the sample is a sub-slice of the mdat data)
+	sample = sample[:len(sample):len(sample)]
 
 	stream := cipher.NewCTR(block, iv)
 	if len(subSamplePatterns) != 0 {
@@ -199,6 +202,9 @@ func EncryptSampleCbcs(sample []byte, key []byte, iv []byte, subSamplePatterns [
 func cryptSampleCbcs(dir cryptoDir, sample []byte, key []byte, iv []byte, subSamplePatterns []SubSamplePattern, tenc *TencBox) error {
 	nrInCryptBlock := int(tenc.DefaultCryptByteBlock) * 16
 	nrInSkipBlock := int(tenc.DefaultSkipByteBlock) * 16
+	// Only the sample is crypted in place: sub-sample patterns that exceed it must not reach
+	// the bytes behind it (the next sample, when the sample is a sub-slice of the mdat data)
+	sample = sample[:len(sample):len(sample)]
 	var pos uint32 = 0
 	if len(subSamplePatterns) != 0 {
 		for j := 0; j < len(subSamplePatterns); j++ {
